@@ -14,6 +14,7 @@ PROP = {
                'server demonstrably keeps serving new requests.',
  'rule': 'Case = fastOpen x logger x 1-2 users x 1-3 proxied connections x 1-3 segments; per connection a list of clientWrite / '
          'targetWrite / sync / client-deadline ops (SetReadDeadline or SetDeadline in the past or 3 ms ahead, cleared after a Read timed out), '
+         'with small QUIC flow-control windows (stream 16/64 KiB, connection 2x, both sides; a third of the cases default 8 MB) also: target stops taking bytes while the client Writes 5-8 windows under a write deadline 5 ms ahead, counts exactly the returned k as sent, clears the deadline and writes the rest from offset k; client pauses reading while the target writes 3-6 windows; '
          'optionally a slow dial (Outbound.TCP parked; with fast open a Read times out and a write happens before the response exists), '
          'an optional terminal event (client close, target close, target shutdown(WR), target read error after '
          'drain, target reset dropping queued bytes) with 0-2 writes of the other side racing it, or a dial failure with a 0..2048-byte '
@@ -23,7 +24,7 @@ PROP = {
          'parameters (every case non-trivial): a chunk awaits its LogTraffic verdict while the other direction of its relay ends and the '
          'verdict is a veto (VetoRacingClose); the same with verdict true while the handler is parked in EventLogger.TCPError before it '
          'closes the two ends and 2-8 new relays of the same/another user move their own bytes (TeardownWindow, 1-3 windows per case).',
- 'assumptions': ['the target connection behaves like the fake: Write never blocks, Close unblocks a pending Read, EOF/error may be returned together with the last bytes',
+ 'assumptions': ['the target connection behaves like the fake: Write never blocks (except during the scripted target-stall of a write-deadline op), Close unblocks a pending Read, EOF/error may be returned together with the last bytes',
                  'the TrafficLogger and the EventLogger do not block (except at the scripted yield points of the veto-race and teardown-window tests) and is keyed by the id the Authenticator returned',
                  'client-side read deadlines expire either before the response exists (parked dial) or after it was consumed (fast open: after the first payload byte); a deadline expiring in the middle of the response frame is outside the quantifier and not generated',
                  'no RequestHook is configured (the accounting clause of the statement is restricted to un-hooked connections)',
